@@ -86,7 +86,7 @@ func NewContractSet() *ContractSet {
 	return &ContractSet{ByKey: map[string]*Contract{}, Preds: map[string]*PredDecl{}, Defs: map[string]*SpecDef{}, GhostMaps: map[string]*GhostMap{}}
 }
 
-var clauseRe = regexp.MustCompile(`^(spawn\s+|site\s+\S+\s+)?(requires|ensures|assigns|ghostset|nopanic|noreturn|pure|inline|trusted|maypanic|loop\s+\d+\s+invariant)(\[[A-Za-z0-9_, ]*\])?\s*(.*)$`)
+var clauseRe = regexp.MustCompile(`^(spawn\s+|onpanic\s+|site\s+\S+\s+)?(requires|ensures|assigns|ghostset|nopanic|noreturn|pure|inline|trusted|maypanic|loop\s+\d+\s+invariant)(\[[A-Za-z0-9_, ]*\])?\s*(.*)$`)
 var labelRe = regexp.MustCompile(`^([A-Za-z_][A-Za-z0-9_.\-=<>+,]*):\s+(.*)$`)
 var headRe = regexp.MustCompile(`^(func|extern|functype|iface)\s+(.*)$`)
 
@@ -195,6 +195,10 @@ func (cs *ContractSet) parseFile(path string, pkgPath string) {
 			c.Kind = kind
 			if c.Callee != "" {
 				c.Kind = "site"
+			}
+			if strings.HasPrefix(m[1], "onpanic") {
+				// postcondition that also holds when the function lets a panic escape
+				c.Kind = "onpanic"
 			}
 			if m[3] != "" {
 				for _, tg := range strings.Split(strings.Trim(m[3], "[]"), ",") {
